@@ -8,6 +8,7 @@
 //     (ev-loc FAM xNLRI ATTRS NH TS xRID ASN EMB)          LocRib event -> loc_rib_to_bmp
 //     (ev-mrt SRC FAM AP NLRIS ATTRS NH TS EMB)            AdjRibIn event -> adj_rib_in_to_mrt
 //     (ev-down (peer IP ASN ID) UPTIME REASON EMB)         SessionDownReason -> session_down_to_bmp
+//     (ev-locup xRID ASN EMB)                              Loc-RIB virtual peer -> loc_rib_peer_up
 //     (ev-flush (peer IP ASN ID) UPTS POST (chgs (chg SRC FAM AP NLRIS ATTRS NH TS)...) (embs EMB...))
 //                                                          apply_snapshot* ; flush_peer_snapshot (messages sorted)
 //     (ev-dump xRID (chg4 CHG...) (chg6 CHG...))           dump_table on a TableManager holding exactly these paths;
@@ -232,6 +233,14 @@ fn build_item(t: &Term) -> Option<Built> {
             let embs = emb.into_iter().flatten().map(|e| (false, e)).collect();
             Some(Built { term: Term::tag(kind, v), real: Real::Bmp(bmp::Message::PeerDown { header, reason }), embs, tags })
         }
+        "ev-locup" if a.len() == 3 => {
+            // BmpClient::serve, Loc-RIB snapshot: `let peer_up = loc_rib_peer_up(local_id, local_asn)`
+            let msg = crate::bmp::verif_c19_bmp::loc_rib_up(v4_of(&a[0])?, u32_of(&a[1])?);
+            let bmp::Message::PeerUp { local_open, remote_open, .. } = &msg else { return None };
+            let emb = standalone(&[local_open, remote_open], false);
+            emb_tags(&emb, &mut tags);
+            Some(Built { term: with_emb(kind, a, &emb), real: Real::Bmp(msg), embs: emb.into_iter().map(|e| (false, e)).collect(), tags })
+        }
         "ev-dump" if a.len() == 3 => build_dump(t, a),
         "ev-flush" if a.len() == 5 => build_flush(a),
         k if k.starts_with("ev-") => None,
@@ -428,6 +437,10 @@ fn build_dump(_t: &Term, a: &[Term]) -> Option<Built> {
         Term::atom(format!("dchg4-{}", c4.len().min(3))),
         Term::atom(format!("dchg6-{}", c6.len().min(3))),
     ];
+    let mut tags = tags;
+    if npeers > 255 {
+        tags.push(Term::atom("dpeers-256+"));
+    }
     Some(Built { term, real: Real::Raw(bytes), embs: vec![], tags })
 }
 
@@ -523,18 +536,53 @@ fn g_peer(r: &mut Rng) -> Term {
 
 
 fn g_srcs(r: &mut Rng, n: usize) -> Vec<Term> {
-    // distinct peer addresses
+    // mostly distinct peer addresses; sometimes two sessions (different AS / identifier) share one address:
+    // dump_table keys its peer index by address only
     let mut v: Vec<Term> = vec![];
     let mut guard = 0;
+    let share = r.chance(1, 5);
     while v.len() < n && guard < 50 {
         guard += 1;
         let s = g_src(r);
         let addr = s.as_list().unwrap()[1].clone();
-        if !v.iter().any(|x| x.as_list().unwrap()[1] == addr) {
+        if share || !v.iter().any(|x| x.as_list().unwrap()[1] == addr) {
             v.push(s);
         }
     }
     v
+}
+
+/// more peers than fit one octet: `n` IPv4 peers 10.9.x.y with one path each, spread over two prefixes
+fn g_dump_many(r: &mut Rng, n: usize) -> Term {
+    let mut paths: Vec<Vec<Term>> = vec![vec![], vec![]];
+    for i in 0..n {
+        let a = [10u8, 9, (i >> 8) as u8, i as u8];
+        let src = Term::tag(
+            "src",
+            vec![
+                Term::list(vec![Term::atom("v4"), Term::bytes(&a)]),
+                Term::list(vec![Term::atom("v4"), Term::bytes(&[10, 0, 0, 9])]),
+                Term::nat(64512 + i as u32),
+                Term::nat(65009u32),
+                Term::nat(u32::from_be_bytes(a)),
+            ],
+        );
+        let attrs = Term::list(vec![
+            Term::list(vec![Term::nat(1u8), Term::nat(64u8), Term::atom("val"), Term::nat(0u8)]),
+            Term::list(vec![Term::nat(2u8), Term::nat(64u8), Term::atom("bin"), Term::bytes(&[2, 1, 0, 0, 0xfc, (i % 251) as u8])]),
+        ]);
+        paths[i % 2].push(Term::tag("path", vec![src, Term::bytes(&a), attrs]));
+    }
+    let mut c4 = vec![];
+    for (k, ps) in paths.into_iter().enumerate() {
+        if ps.is_empty() {
+            continue;
+        }
+        let mut l = vec![Term::tag("pfx", vec![Term::nat(24u8), Term::bytes(&[10, 1, k as u8, 0])])];
+        l.extend(ps);
+        c4.push(Term::list(l));
+    }
+    Term::tag("ev-dump", vec![Term::bytes(&pick_v4(r)), Term::tag("chg4", c4), Term::tag("chg6", vec![])])
 }
 
 fn g_dump(r: &mut Rng) -> Term {
@@ -634,6 +682,10 @@ fn g_item(r: &mut Rng, big: bool) -> Term {
                 }
                 return Term::tag("ev-mrt", vec![g_src(r), fam, ap, nl, at, nh, Term::nat(*r.pick(&TSS)), q()]);
             }
+            6 if r.chance(1, 4) => {
+                let rid = *r.pick(&[[10u8, 0, 0, 1], [1, 1, 1, 1], [192, 168, 0, 1]]);
+                return Term::tag("ev-locup", vec![Term::bytes(&rid), Term::nat(*r.pick(&[1u32, 65001, 65536, 4200000001])), q()]);
+            }
             6 => {
                 let reason = match r.below(7) {
                     0 => Term::atom("none"),
@@ -646,6 +698,10 @@ fn g_item(r: &mut Rng, big: bool) -> Term {
                 };
                 let up: u64 = if r.chance(1, 6) { (1u64 << 32) + 5 } else { *r.pick(&TSS) as u64 };
                 return Term::tag("ev-down", vec![g_peer(r), Term::nat(up), reason, q()]);
+            }
+            7 if r.chance(1, 12) => {
+                let n = 256 + r.below(50) as usize;
+                return g_dump_many(r, n);
             }
             7 => return g_dump(r),
             8 => return g_flush(r),
